@@ -281,4 +281,277 @@ Section HashProof.
       + exact Hpool'.
       + unfold hflat. rewrite (aget_foreign V eqb k _ F). reflexivity.
   Qed.
+  (* ---------------- Delete ---------------- *)
+  Lemma wf_after_del : forall k s s', WF s ->
+    NoDup (map fst (tbl s')) -> chains_ok (tbl s') -> pool_zero (pool s') ->
+    hflat s' = adel eqb k (hflat s) ->
+    size s' = size s - match aget eqb k (hflat s) with Some _ => 1 | None => 0 end ->
+    WF s'.
+  Proof.
+    intros k s s' W H1 H2 H3 H4 H5. constructor; try assumption.
+    - rewrite H4. apply distinct_adel. exact (wf_distinct s W).
+    - rewrite H5, (wf_size s W), H4, (length_adel V eqb).
+      destruct (aget eqb k (hflat s)) eqn:A; [|lia].
+      destruct (hflat s); [discriminate|]. cbn [length pred]. lia.
+  Qed.
+
+  Lemma formatting_fresh : forall n, formatting vzero n = fresh_node vzero.
+  Proof. reflexivity. Qed.
+
+  Lemma hdelete_spec : forall k s s' r, WF s ->
+    hdelete vzero code eqb k s = (s', r) ->
+    r = afound vzero eqb k (hflat s) /\ WF s' /\ hflat s' = adel eqb k (hflat s).
+  Proof.
+    intros k s s' r W Heq.
+    pose proof (wf_codes s W) as Hnd. pose proof (wf_chains s W) as Hok.
+    assert (Hnone : aget eqb k (hflat s) = None -> (vzero, false) = afound vzero eqb k (hflat s) /\ WF s /\
+                    hflat s = adel eqb k (hflat s)).
+    { intro A. split; [unfold afound; rewrite A; reflexivity|]. split; [exact W|].
+      symmetry. apply adel_foreign. apply aget_none_foreign. exact A. }
+    unfold hdelete, hdelete_gen in Heq.
+    destruct (tbl_get (code k) (tbl s)) as [c|] eqn:G.
+    - destruct (tbl_get_some _ _ _ G) as [t1 [t2 [Ht Hn]]]. rewrite Ht in Hnd, Hok.
+      destruct (split_facts k t1 t2 c Hnd Hok) as [F1 [F2 [Ok1 [Ok2 [Hne [Hc Hnd']]]]]].
+      assert (Hflat : hflat s = flat t1 ++ c ++ flat t2) by (unfold hflat; rewrite Ht; apply flat_mid).
+      destruct c as [|[k0 v0] r0]; [contradiction|].
+      destruct (eqb k0 k) eqn:E.
+      + (* num = 0 *)
+        assert (A : aget eqb k (hflat s) = Some v0).
+        { rewrite Hflat, aget_app, (aget_foreign V eqb k _ F1). cbn [app aget]. rewrite E. reflexivity. }
+        assert (D : adel eqb k (hflat s) = flat t1 ++ r0 ++ flat t2).
+        { rewrite Hflat, (adel_app_r V eqb k _ _ F1). cbn [app adel]. rewrite E. reflexivity. }
+        inversion Heq; subst s' r; clear Heq.
+        split; [unfold afound; rewrite A; reflexivity|].
+        unfold chains_ok in Hc. inversion Hc as [|? ? Hc0 Hcr]; subst.
+        destruct r0 as [|e1 r1].
+        * (* the only node of the chain: the bucket is deleted *)
+          assert (P : hflat {| tbl := tbl_remove (code k) (tbl s);
+                               pool := formatting vzero {| nkey := k0; nval := v0; nnext := [] |} :: pool s;
+                               size := size s - 1 |} = adel eqb k (hflat s)).
+          { unfold hflat at 1. cbn [tbl]. rewrite Ht, (tbl_remove_at _ _ _ _ Hn), flat_app, D. reflexivity. }
+          split; [|exact P].
+          eapply (wf_after_del k s); [exact W| | | |exact P|]; cbn [tbl pool size].
+          -- rewrite Ht, (tbl_remove_at _ _ _ _ Hn). exact Hnd'.
+          -- rewrite Ht, (tbl_remove_at _ _ _ _ Hn). apply chains_ok_app. split; assumption.
+          -- constructor; [reflexivity|exact (wf_pool s W)].
+          -- rewrite A. reflexivity.
+        * (* head with a successor: the bucket now starts at root.next *)
+          assert (P : hflat {| tbl := tbl_set (code k) (e1 :: r1) (tbl s);
+                               pool := formatting vzero {| nkey := k0; nval := v0; nnext := e1 :: r1 |} :: pool s;
+                               size := size s - 1 |} = adel eqb k (hflat s)).
+          { unfold hflat at 1. cbn [tbl]. rewrite Ht, (tbl_set_at _ _ _ _ _ Hn), flat_mid, D. reflexivity. }
+          split; [|exact P].
+          eapply (wf_after_del k s); [exact W| | | |exact P|]; cbn [tbl pool size].
+          -- rewrite Ht, (tbl_set_at _ _ _ _ _ Hn). rewrite map_app in *. exact Hnd.
+          -- rewrite Ht, (tbl_set_at _ _ _ _ _ Hn). apply chains_ok_app. split; [exact Ok1|].
+             constructor; [|exact Ok2]. cbn [fst snd]. split; [discriminate|exact Hcr].
+          -- constructor; [reflexivity|exact (wf_pool s W)].
+          -- rewrite A. reflexivity.
+      + (* num > 0 *)
+        pose proof (chain_unlink_spec k r0) as U.
+        destruct (chain_unlink eqb k r0) as [[r' n]|].
+        * destruct U as [U1 U2]. subst r'.
+          assert (A : aget eqb k (hflat s) = Some (nval n)).
+          { rewrite Hflat, aget_app, (aget_foreign V eqb k _ F1). cbn [app aget]. rewrite E.
+            rewrite aget_app, U2. reflexivity. }
+          assert (D : adel eqb k (hflat s) = flat t1 ++ ((k0, v0) :: adel eqb k r0) ++ flat t2).
+          { rewrite Hflat, (adel_app_r V eqb k _ _ F1). cbn [app adel]. rewrite E.
+            rewrite (adel_app_l V eqb k (nval n) _ _ U2). reflexivity. }
+          inversion Heq; subst s' r; clear Heq.
+          split; [unfold afound; rewrite A; reflexivity|].
+          assert (P : hflat {| tbl := tbl_set (code k) ((k0, v0) :: adel eqb k r0) (tbl s);
+                               pool := formatting vzero n :: pool s; size := size s - 1 |} = adel eqb k (hflat s)).
+          { unfold hflat at 1. cbn [tbl]. rewrite Ht, (tbl_set_at _ _ _ _ _ Hn), flat_mid, D. reflexivity. }
+          split; [|exact P].
+          eapply (wf_after_del k s); [exact W| | | |exact P|]; cbn [tbl pool size].
+          -- rewrite Ht, (tbl_set_at _ _ _ _ _ Hn). rewrite map_app in *. exact Hnd.
+          -- rewrite Ht, (tbl_set_at _ _ _ _ _ Hn). apply chains_ok_app. split; [exact Ok1|].
+             constructor; [|exact Ok2]. cbn [fst snd]. split; [discriminate|].
+             unfold chains_ok in Hc. inversion Hc as [|? ? Hc0 Hcr]; subst. constructor; [exact Hc0|].
+             apply Forall_forall. intros e He. rewrite Forall_forall in Hcr. apply Hcr.
+             eapply adel_incl. exact He.
+          -- constructor; [reflexivity|exact (wf_pool s W)].
+          -- rewrite A. reflexivity.
+        * inversion Heq; subst s' r; clear Heq. apply Hnone.
+          rewrite Hflat, aget_app, (aget_foreign V eqb k _ F1). cbn [app aget]. rewrite E.
+          rewrite aget_app, U, (aget_foreign V eqb k _ F2). reflexivity.
+    - inversion Heq; subst s' r; clear Heq. apply Hnone.
+      apply aget_foreign. apply flat_foreign; [exact Hok|]. apply tbl_get_none. exact G.
+  Qed.
+
+  (* ---------------- the simulation ---------------- *)
+  Definition hR (s : hstate V) (a : list (Z * V)) : Prop := WF s /\ Permutation (hflat s) a.
+
+  Lemma hR_init : hR hinit [].
+  Proof.
+    split; [|apply Permutation_refl]. constructor; cbn; try constructor; try reflexivity.
+  Qed.
+
+  Lemma hR_put : forall s a k v ch, hR s a -> hR (fst (hput vzero code eqb k v ch s)) (aput eqb k v a).
+  Proof.
+    intros s a k v ch [W P]. destruct (hput vzero code eqb k v ch s) as [s' o] eqn:E.
+    destruct (hput_spec k v ch s s' o W E) as [_ [W' P']]. cbn [fst]. split; [exact W'|].
+    eapply Permutation_trans; [exact P'|]. apply aput_perm; [exact eqb_laws|exact P|exact (wf_distinct s W)].
+  Qed.
+  Lemma hR_put_ok : forall s a k v ch, hR s a -> snd (hput vzero code eqb k v ch s) = Ok tt.
+  Proof.
+    intros s a k v ch [W P]. destruct (hput vzero code eqb k v ch s) as [s' o] eqn:E.
+    destruct (hput_spec k v ch s s' o W E) as [Ho _]. exact Ho.
+  Qed.
+  Lemma hR_get : forall s a k, hR s a -> hget vzero code eqb k s = afound vzero eqb k a.
+  Proof.
+    intros s a k [W P]. rewrite (hget_spec k s W). unfold afound.
+    rewrite (aget_perm V eqb eqb_laws k _ _ P (wf_distinct s W)). reflexivity.
+  Qed.
+  Lemma hR_del : forall s a k, hR s a ->
+    hR (fst (hdelete vzero code eqb k s)) (adel eqb k a) /\
+    snd (hdelete vzero code eqb k s) = afound vzero eqb k a.
+  Proof.
+    intros s a k [W P]. destruct (hdelete vzero code eqb k s) as [s' r] eqn:E.
+    destruct (hdelete_spec k s s' r W E) as [Hr [W' P']]. cbn [fst snd]. split.
+    - split; [exact W'|]. rewrite P'. apply adel_perm; [exact eqb_laws|exact P|exact (wf_distinct s W)].
+    - rewrite Hr. unfold afound. rewrite (aget_perm V eqb eqb_laws k _ _ P (wf_distinct s W)). reflexivity.
+  Qed.
+  Lemma hR_distinct : forall s a, hR s a -> distinct eqb a.
+  Proof. intros s a [W P]. eapply distinct_perm; [exact eqb_laws|exact P|exact (wf_distinct s W)]. Qed.
+
+  Lemma hash_sim : forall s a o, hR s a ->
+    hR (fst (hstep vzero code eqb s o)) (fst (astep vzero eqb a o)) /\
+    out_equiv (snd (hstep vzero code eqb s o)) (snd (astep vzero eqb a o)).
+  Proof.
+    intros s a o H. unfold hstep, hstep_gen. destruct o as [k v ch|k|k| | |]; cbn [astep].
+    - pose proof (hR_put s a k v ch H) as H1. pose proof (hR_put_ok s a k v ch H) as H2.
+      destruct (hput vzero code eqb k v ch s) as [s' r]. cbn [fst snd] in *. subst r.
+      split; [exact H1|reflexivity].
+    - rewrite (hR_get s a k H). destruct (afound vzero eqb k a) as [v ok]. cbn [fst snd].
+      split; [exact H|reflexivity].
+    - destruct (hR_del s a k H) as [H1 H2]. fold (hdelete vzero code eqb k s).
+      destruct (hdelete vzero code eqb k s) as [s' [v ok]]. cbn [fst snd] in *. rewrite <- H2.
+      cbn [fst snd]. split; [exact H1|reflexivity].
+    - cbn [fst snd]. split; [exact H|]. cbn [out_equiv]. unfold hkeys. apply Permutation_map. exact (proj2 H).
+    - cbn [fst snd]. split; [exact H|]. cbn [out_equiv]. unfold hvals. apply Permutation_map. exact (proj2 H).
+    - cbn [fst snd]. split; [exact H|]. cbn [out_equiv]. unfold hlen. destruct H as [W P].
+      rewrite (wf_size s W), (Permutation_length P). reflexivity.
+  Qed.
+
+  (* HashMap is a correct backing for the decorators *)
+  Lemma hash_backing_refines_lemma : backing_refines vzero eqb (hash_backing vzero code eqb) hR.
+  Proof.
+    constructor; cbn [hash_backing mput mget mdel mkeys mvals mlen].
+    - intros m a k u ch H. apply hR_put. exact H.
+    - intros m a k H. apply hR_get. exact H.
+    - intros m a k H. apply hR_del. exact H.
+    - intros m a [W P]. unfold hkeys. apply Permutation_map. exact P.
+    - intros m a [W P]. unfold hvals. apply Permutation_map. exact P.
+    - intros m a [W P]. unfold hlen. rewrite (wf_size m W), (Permutation_length P). reflexivity.
+    - intros m a H. eapply hR_distinct. exact H.
+  Qed.
+
+  (* ---------------- all histories ---------------- *)
+  Notation hrun ops := (run (hstep vzero code eqb) hinit ops).
+  Notation arun ops := (run (astep vzero eqb) [] ops).
+
+  Lemma hash_run_sim : forall ops,
+    hR (fst (hrun ops)) (fst (arun ops)) /\ Forall2 out_equiv (snd (hrun ops)) (snd (arun ops)).
+  Proof. intro ops. apply (run_sim _ _ hR out_equiv hash_sim). exact hR_init. Qed.
+
+  Lemma hashmap_refines_map_lemma : forall ops, Forall2 out_equiv (snd (hrun ops)) (snd (arun ops)).
+  Proof. intro ops. exact (proj2 (hash_run_sim ops)). Qed.
+
+  Lemma hashmap_wf_lemma : forall ops, WF (fst (hrun ops)).
+  Proof. intro ops. exact (proj1 (proj1 (hash_run_sim ops))). Qed.
+
+  Lemma hashmap_never_panics_lemma : forall ops, ~ In (RPut Panic) (snd (hrun ops)).
+  Proof.
+    intros ops Hin. pose proof (hashmap_refines_map_lemma ops) as F.
+    assert (G : forall (l1 l2 : list (mout V)), Forall2 out_equiv l1 l2 -> In (RPut Panic) l1 -> In (RPut Panic) l2).
+    { intros l1 l2 HF. induction HF as [|x y l l' Hxy HF IH]; intro HI; [exact HI|].
+      destruct HI as [HI|HI]; [left; subst x; cbn [out_equiv] in Hxy; symmetry; exact Hxy|right; exact (IH HI)]. }
+    specialize (G _ _ F Hin). clear F Hin. revert G. generalize (@nil (Z * V)).
+    induction ops as [|o t IH]; intros a G; [exact G|].
+    cbn [run] in G. destruct (astep vzero eqb a o) as [a1 r] eqn:E.
+    destruct (run (astep vzero eqb) a1 t) as [a2 rs] eqn:E2. cbn [snd] in G.
+    destruct G as [G|G].
+    - destruct o; cbn [astep] in E; try (destruct (afound vzero eqb k a)); inversion E; subst; discriminate.
+    - apply (IH a1). rewrite E2. exact G.
+  Qed.
+
+  (* Len is the number of distinct live keys *)
+  Lemma distinct_keys_FOP : forall (l : list (Z * V)), distinct eqb l ->
+    ForallOrdPairs (fun a b => eqb a b = false) (map fst l).
+  Proof.
+    intro l. induction l as [|[k v] t IH]; intro H; [constructor|].
+    cbn [distinct] in H. destruct H as [H1 H2]. cbn [map fst]. constructor; [|exact (IH H2)].
+    apply Forall_map. exact H1.
+  Qed.
+  Lemma aget_some_iff : forall k (l : list (Z * V)),
+    aget eqb k l <> None <-> exists k', In k' (map fst l) /\ eqb k' k = true.
+  Proof.
+    intros k l. induction l as [|[k0 v0] t IH].
+    - cbn. split; [intro H; contradiction|intros [k' [[] _]]].
+    - cbn [aget map fst In]. destruct (eqb k0 k) eqn:E.
+      + split; [intros _; exists k0; split; [left; reflexivity|exact E]|intros _; discriminate].
+      + rewrite IH. split.
+        * intros [k' [Hin He]]. exists k'. split; [right; exact Hin|exact He].
+        * intros [k' [[Hk|Hin] He]]; [subst k'; congruence|exists k'; split; assumption].
+  Qed.
+
+  Lemma len_is_cardinal_lemma : forall ops,
+    let s := fst (hrun ops) in
+    hlen s = Z.of_nat (length (hkeys s)) /\
+    ForallOrdPairs (fun a b => eqb a b = false) (hkeys s) /\
+    (forall k, snd (hget vzero code eqb k s) = true <-> exists k', In k' (hkeys s) /\ eqb k' k = true).
+  Proof.
+    intros ops s. pose proof (hashmap_wf_lemma ops) as W. fold s in W. repeat split.
+    - unfold hlen, hkeys. rewrite map_length. exact (wf_size s W).
+    - apply distinct_keys_FOP. exact (wf_distinct s W).
+    - rewrite (hget_spec k s W). unfold afound, hkeys. intro H. apply aget_some_iff.
+      destruct (aget eqb k (hflat s)); [discriminate|discriminate].
+    - rewrite (hget_spec k s W). unfold afound, hkeys. intro H. apply aget_some_iff in H.
+      destruct (aget eqb k (hflat s)); [reflexivity|contradiction].
+  Qed.
+
+  (* deleting or overwriting a key never disturbs another key, colliding or not *)
+  Lemma delete_does_not_disturb_lemma : forall ops k k', eqb k k' = false ->
+    let s := fst (hrun ops) in
+    hget vzero code eqb k' (fst (hdelete vzero code eqb k s)) = hget vzero code eqb k' s /\
+    (forall v ch, hget vzero code eqb k' (fst (hput vzero code eqb k v ch s)) = hget vzero code eqb k' s).
+  Proof.
+    intros ops k k' Hne s. pose proof (hashmap_wf_lemma ops) as W. fold s in W. split.
+    - destruct (hdelete vzero code eqb k s) as [s' r] eqn:E.
+      destruct (hdelete_spec k s s' r W E) as [_ [W' P]]. cbn [fst].
+      rewrite (hget_spec k' s' W'), (hget_spec k' s W). unfold afound.
+      rewrite P, (aget_adel_other V eqb eqb_laws k k' _ Hne). reflexivity.
+    - intros v ch. destruct (hput vzero code eqb k v ch s) as [s' o] eqn:E.
+      destruct (hput_spec k v ch s s' o W E) as [_ [W' P]]. cbn [fst].
+      rewrite (hget_spec k' s' W'), (hget_spec k' s W). unfold afound.
+      rewrite (aget_perm V eqb eqb_laws k' _ _ P (wf_distinct s' W')).
+      rewrite (aget_aput_other V eqb eqb_laws k v k' _ Hne). reflexivity.
+  Qed.
+
+  (* recycled nodes never leak a previous key, value or chain *)
+  Lemma recycled_nodes_do_not_leak_lemma : forall ops,
+    let s := fst (hrun ops) in
+    Forall (fun n => n = {| nkey := 0; nval := vzero; nnext := [] |}) (pool s) /\
+    (forall ch k v, fst (new_node vzero ch k v (pool s)) = {| nkey := k; nval := v; nnext := [] |}).
+  Proof.
+    intros ops s. pose proof (hashmap_wf_lemma ops) as W. fold s in W. split.
+    - exact (wf_pool s W).
+    - intros ch k v. exact (proj1 (new_node_zero ch k v (pool s) (wf_pool s W))).
+  Qed.
+
+  (* Len of the pinned tree counted buckets: two colliding keys gave Len = 1 with 2 keys stored *)
+  Lemma hashmap_len_refuted_lemma : forall a b va vb, code a = code b -> eqb a b = false ->
+    let s := fst (hrun [MPut a va None; MPut b vb None]) in
+    hlen_pinned s = 1 /\ length (hkeys s) = 2%nat /\ hlen s = 2.
+  Proof.
+    intros a b va vb Hc He.
+    assert (E1 : hput vzero code eqb a va None hinit =
+                 ({| tbl := [(code a, [(a, va)])]; pool := []; size := 0 + 1 |}, Ok tt)) by reflexivity.
+    assert (E2 : hput vzero code eqb b vb None {| tbl := [(code a, [(a, va)])]; pool := []; size := 0 + 1 |} =
+                 ({| tbl := [(code b, [(a, va); (b, vb)])]; pool := []; size := 0 + 1 + 1 |}, Ok tt)).
+    { unfold hput. cbn [tbl tbl_get]. rewrite Hc, Z.eqb_refl. cbn [chain_update]. rewrite He.
+      cbn [pool new_node pool_get tbl_set]. rewrite Z.eqb_refl. reflexivity. }
+    cbn [run hstep hstep_gen]. rewrite E1, E2. cbn. repeat split.
+  Qed.
 End HashProof.
